@@ -860,7 +860,52 @@ func (e *Exec) runDefers(st *State, fr *Frame) []stfr {
 	return cur
 }
 
+// constScalarSlice: a fresh slice with the given constant elements.
+func (e *Exec) constScalarSlice(st *State, elem types.Type, vals []int64, name string) *SliceVal {
+	es := e.elemSort(elem)
+	ts := make([]*Term, len(vals))
+	for i, v := range vals {
+		ts[i] = e.C.NumConst(big.NewInt(v), es)
+	}
+	n := e.idx(int64(len(vals)))
+	av := &ArrayVal{ElemT: elem, Scalar: true, Elem: es, C: &ArrLit{Vals: ts, Rest: &ArrFill{Val: e.C.NumConst(big.NewInt(0), es)}}, Len: n}
+	id := e.newObj(st, av, &ObjMeta{T: types.NewArray(elem, int64(len(vals))), Fresh: true, Name: name})
+	return &SliceVal{Obj: id, Off: e.idx(0), Len: n, Cap: n, Nil: e.C.False(), ElemT: elem}
+}
+
+// concreteScalarSlice: the constant elements of a slice whose length and contents are all constants.
+func (e *Exec) concreteScalarSlice(st *State, s *SliceVal) ([]int64, bool) {
+	if s.Obj == 0 {
+		return nil, true
+	}
+	if !s.Len.IsConst() || !s.Off.IsConst() || !s.Len.C.IsInt64() || s.Len.C.Int64() > 1<<16 {
+		return nil, false
+	}
+	av := e.sliceBacking(st, s)
+	if !av.Scalar {
+		return nil, false
+	}
+	n := int(s.Len.C.Int64())
+	out := make([]int64, n)
+	for i := 0; i < n; i++ {
+		t := e.sel(av.C, e.C.Add(s.Off, e.idx(int64(i))))
+		if !t.IsConst() {
+			return nil, false
+		}
+		out[i] = t.SInt().Int64()
+	}
+	return out, true
+}
+
 func (e *Exec) stringToRunes(st *State, fr *Frame, in ssa.Instruction, s *StringVal, to types.Type) Val {
+	if cs, ok := concreteString(s); ok {
+		// a constant string is decoded exactly (Go semantics: invalid UTF-8 yields U+FFFD per byte)
+		var vals []int64
+		for _, r := range cs {
+			vals = append(vals, int64(r))
+		}
+		return e.constScalarSlice(st, types.Typ[types.Int32], vals, "runes")
+	}
 	// []rune(s): uninterpreted decoding; length <= len(s)
 	e.UsedIntrinsics["[]rune(string) (uninterpreted utf-8 decoding, len <= len(s))"] = true
 	sl := e.freshSliceObj(st, types.Typ[types.Int32], "runes")
